@@ -278,6 +278,8 @@ def call_values(I, c, args, e=None, env=None):
         return Num(as_num(args[0]).expr.fn("gamma"))
     if name == "pow" and ("usize" in path or "impl u" in path or "impl i" in path):
         b, ex = as_num(args[0]), as_num(args[1])
+        if b.expr == Expr.const(2):
+            return Num(Expr.atom(("call", "shl", Expr.const(1), ex.expr)))   # 2^n is 1 << n: one canonical form
         return Num(Expr.atom(("call", "ipow", b.expr, ex.expr)))
     if name == "count_ones":
         return Num(Expr.atom(("call", "popcount", as_num(args[0]).expr)))
